@@ -93,6 +93,17 @@ TConsume ==
            /\ last' = [call |-> "consume", res |-> "ok", io |-> TRUE, req |-> 0, act |-> 0]
            /\ UNCHANGED << shp, shx, hasShx, hLen, hBox, recNum, shpOps, shxOps >>
 
+\* consumption by write_shapes([x, x]) on a file of another type: refused at once (C10), and the writer the call
+\* consumed is dropped inside it: the files are complete and equal to those of the accepted shapes alone
+TConsumeRefused ==
+    /\ Ev("consumex") /\ UNCHANGED observed
+    /\ LET e == Rec[l]
+       IN  /\ hType # 0 /\ hType # e.tx
+           /\ e.res = "mismatch" /\ e.req = hType /\ e.act = e.tx
+           /\ Drop
+           /\ CompleteFiles(e, written, hType)
+           /\ (On("C09") \/ On("C10") \/ On("C12")) => (e.shp = e.plainShp /\ e.shx = e.plainShx)
+
 (***************************************************************************)
 (* Fault runs (C12): each call event says whether the injected failure     *)
 (* fired during the call.  A call during which it fired must return that   *)
@@ -150,7 +161,7 @@ TFDrop ==
                         /\ e.shp = e.plainShp /\ e.shx = e.plainShx
 
 Init == /\ l = 2 /\ WInit(TRUE) /\ observed = TRUE
-Next == TReset \/ TWrite \/ TFinalize \/ TDrop \/ TConsume \/ TFWrite \/ TFFinalize \/ THeal \/ TFDrop
+Next == TReset \/ TWrite \/ TFinalize \/ TDrop \/ TConsume \/ TConsumeRefused \/ TFWrite \/ TFFinalize \/ THeal \/ TFDrop
 Spec == Init /\ [][Next]_vars
 
 Accepted ==
